@@ -60,6 +60,8 @@ def run(ctx):
     ctx.rule("R2", "hop probabilities: clamp, normalise, single draw, cumulative comparison")
     ctx.rule("R3", "energy-conserving velocity adjustment (expression algebra) and frustrated-hop purity")
     ctx.rule("R4", "per-trajectory isolation: indexing discipline, row-0 broadcasts, batch-global scalars")
+    ctx.rule("R5", "scratch-buffer hygiene: reusable per-object buffers are re-initialised on every fetch (no state leaks between crossings/trajectories)")
+    _r5(ctx, nad)
 
     # ------------------------------------------------------------------ R1
     pe = nad.func("NonadiabaticDynamicsBase._propagate_electronic")
@@ -348,3 +350,43 @@ def run(ctx):
             ctx.check(False, "R4", nad, c, "NonadiabaticDynamicsBase._propagate_electronic", stmt,
                       "", f"`{short(stmt, 70)}`: a batch-global reduction is converted to a Python scalar that sets `{tgt}` (sub-step count) for every "
                       f"trajectory: a coupling spike in one trajectory changes the integration of the others") if "nsub" in tgt else None
+
+
+def _r5(ctx, nad):
+    gt = nad.func("NonadiabaticDynamicsBase._get_tensor")
+    g = build_cfg(gt)
+    rets = [n for n in g.nodes if n.kind == "stmt" and isinstance(n.stmt, ast.Return)]
+    fills = {n.id for n in g.nodes if n.kind == "stmt" and any(callee_attr(c) in ("zero_", "fill_", "copy_") or (call_name(c) or "") in ("torch.full", "torch.zeros", "torch.ones", "torch.full_like", "torch.zeros_like")
+                                                               for c in calls_in(n.stmt))}
+    tests = [n for n in g.nodes if n.kind == "if" and norm(n.expr).replace(" ", "") == "fill_valueisnotNone"]
+    if not rets:
+        raise AnalysisError("_get_tensor: return not found")
+    if tests:
+        t = tests[0]
+        true_succ = [b for b, lab in g.succ[t.id] if lab == "true"]
+        # with a fill value requested, every path from the test to the return passes a fill; and the test is on every path to return
+        ok = all(r.id not in g.reachable(true_succ, avoid=fills, include_src=True) for r in rets) and all(g.must_pass(g.entry, r.id, {t.id}) for r in rets)
+    else:
+        # no dedicated test: every path to the return must pass a fill
+        ok = all(g.must_pass(g.entry, r.id, fills) for r in rets)
+    ctx.check(ok, "R5", nad, gt, "NonadiabaticDynamicsBase._get_tensor", gt.name,
+              "a cached scratch tensor requested with a fill value is refilled on every fetch, including cache hits",
+              "_get_tensor can return a cached buffer without refilling it: swap/zero masks keep entries of earlier trivial crossings "
+              "(relabelling stops being a permutation; one trajectory's crossing re-swaps another's amplitudes)")
+    # call sites that rely on it pass a fill value
+    n = 0
+    for c in calls_in(nad.tree):
+        if callee_attr(c) == "_get_tensor":
+            n += 1
+            kws = {k.arg for k in c.keywords}
+            ctx.check("fill_value" in kws or len(c.args) >= 6, "R5", nad, c, nad.qualname_of(c), c, "scratch buffer is requested with an explicit fill value",
+                      f"`{short(c, 60)}` takes a reusable buffer without a fill value: contents of the previous use leak in")
+    cc = nad.func("NonadiabaticDynamicsBase._copy_cache_entry")
+    g = build_cfg(cc)
+    cp = {n.id for n in g.nodes if n.kind == "stmt" and any(callee_attr(c) == "copy_" and norm(c.args[0]) == "src" for c in calls_in(n.stmt))}
+    st = [n for n in g.nodes if n.kind == "stmt" and isinstance(n.stmt, ast.Assign) and norm(n.stmt.targets[0]) == "cache[key]"]
+    ok = bool(cp) and bool(st) and all(g.must_pass(g.entry, x.id, cp) for x in st) and g.must_pass(g.entry, g.exit_return, {x.id for x in st})
+    ctx.check(ok, "R5", nad, cc, "NonadiabaticDynamicsBase._copy_cache_entry", cc.name, "previous-step cache entries are copies of the current data on every call",
+              "_copy_cache_entry can keep an old buffer without copying the new data")
+    if n < 3:
+        raise AnalysisError("_get_tensor call sites not found")
